@@ -130,7 +130,7 @@ package subscribe
 //@ func (*Server).sendStreamingResults
 //@   props C05 C07 C08 C14 C04 C12
 //@   requires s != nil && StreamClientWf(c) && SyncRespWf() && !tdelSeen
-//@   modifies ghost lastChecked, ghost lastVerdict, ghost aclChecks, ghost sends, ghost sendTimerArmed, ghost tdelSeen
+//@   modifies ghost lastChecked, ghost lastVerdict, ghost aclChecks, ghost sends, ghost sendTimerArmed, ghost tdelSeen, ghost dequeues
 //@   invariant 0: [single-target-stream-ends-after-target-delete C14] !tdelSeen || c.target == "*"
 //@   assert at call (*Server).sendSubscribeResponse#0: [dup-count-is-the-dequeued-one C08] arg1.dup == dup && arg1.stream == c.stream && arg1.n != nil && box(arg1.n) == item
 //@   assert at call BidiStreamingServer.Send#0: [sync-response-only C07 C05] arg0 == subscribeSync && isa(item.(syncMarker))
